@@ -68,3 +68,43 @@ Example C06_object_span_nonvacuous :
         (NT 0 [T 1 2 3 false; T 1 7 1 false]) None = BOk (VObj [65]%N 2 8 [], None).
 Proof. vm_compute. reflexivity. Qed.
 Print Assumptions C06_object_span_nonvacuous.
+
+(* OBJECT level nesting and list order.  For every grammar table, metamodel table, input, group oracle and
+   option setting: if the node is a well-formed tree and assignment nodes sit where the grammar compiler
+   puts them (children of common-rule nodes; decidable, evaluated per case), the value Build returns for
+   it is [good] for the node's span.  [good lo hi v] is spelled out by the three theorems that follow:
+   every object has a non-empty span inside [lo, hi]; the values of its attributes are good for the
+   object's own span (child slices inside the parent slice, recursively); the objects of one list are
+   ordered and disjoint. *)
+Theorem C06_objects_nested_ordered :
+  forall g mm input grp auto use_grp t top v top' under,
+    wf_tree t = true -> asg_placed mm under t = true ->
+    pnode g mm input grp auto use_grp t top = BOk (v, top') -> good (tpos t) (tend t) v.
+Proof. exact objects_nested_ordered. Qed.
+Print Assumptions C06_objects_nested_ordered.
+
+Theorem C06_good_object_nonempty_inside :
+  forall lo hi c p e attrs, good lo hi (VObj c p e attrs) -> lo <= p /\ p < e /\ e <= hi.
+Proof. exact good_obj_bounds. Qed.
+Print Assumptions C06_good_object_nonempty_inside.
+
+Theorem C06_good_child_inside_parent :
+  forall lo hi c p e attrs a x, good lo hi (VObj c p e attrs) -> In (a, x) attrs -> good p e x.
+Proof. exact good_child. Qed.
+Print Assumptions C06_good_child_inside_parent.
+
+Theorem C06_good_list_ordered_disjoint :
+  forall l1 lo hi c1 p1 e1 a1 l2 c2 p2 e2 a2 l3,
+    good lo hi (VList (l1 ++ VObj c1 p1 e1 a1 :: l2 ++ VObj c2 p2 e2 a2 :: l3)) -> e1 <= p2.
+Proof. exact good_list_order. Qed.
+Print Assumptions C06_good_list_ordered_disjoint.
+
+Example C06_objects_nonvacuous :
+  let mm := [IRule RCommon [77]%N [mkAttr [120]%N MPlus true false [65]%N false];
+             IAsgn [120]%N OpList; IRule RCommon [65]%N []; ITerm [] 0] in
+  let t := NT 0 [NT 1 [NT 2 [T 3 1 2 false]; NT 2 [T 3 5 1 false]]] in
+  wf_tree t = true /\ asg_placed mm false t = true /\
+  pnode (mkGrammar [] 0 None) mm [] (fun _ _ => None) true false t None
+    = BOk (VObj [77]%N 1 6 [([120]%N, VList [VObj [65]%N 1 3 []; VObj [65]%N 5 6 []])], None).
+Proof. vm_compute. repeat split. Qed.
+Print Assumptions C06_objects_nonvacuous.
